@@ -21,10 +21,12 @@ def prop_module(pid):
     return importlib.import_module(f'vfw.props.{pid.lower()}')
 
 
+_JOBS = None     # the job list built by the parent before the pool is forked (building it again per job costs more than many jobs)
+
+
 def _run_job(args):
     job_index, pid, tier, seed, second = args
-    mod = prop_module(pid)
-    jobs = mod.jobs(tier)
+    jobs = _JOBS if _JOBS is not None else prop_module(pid).jobs(tier)
     job = jobs[job_index]
     return explore_job(job, seed=seed, second_solver=second)
 
@@ -89,20 +91,31 @@ def cmd_run(pid, tier, seed):
     from . import zsym
     st = zsym.self_test()
     mod = prop_module(pid)
+    global _JOBS
     jobs = mod.jobs(tier)
+    _JOBS = jobs
     second = (tier == 'thorough')
     nproc = min(int(os.environ.get('VERIF_JOBS', '16')), max(1, len(jobs)))
     ctxm = mp.get_context('fork')
     results = []
-    with ctxm.Pool(nproc, maxtasksperchild=4) as pool:
+    with ctxm.Pool(nproc, maxtasksperchild=int(os.environ.get("VFW_TASKS_PER_CHILD", "12"))) as pool:
         twin_async = pool.apply_async(_run_twin, ((pid, tier, seed),))
         early = os.environ.get('VFW_EARLY_STOP')      # development aid (seed evaluation): stop once a job has reported a violation
-        for r in pool.imap_unordered(_run_job, [(i, pid, tier, seed, second) for i in range(len(jobs))]):
+        # longest jobs first (wall times of the previous run of this check, if its evidence file is still there): shortens the tail
+        order = list(range(len(jobs)))
+        try:
+            with open(os.path.join(ROOT, 'evidence', f'{pid}.json')) as f:
+                prev = {(j['template'], json.dumps(j['cfg'], sort_keys=True, default=str)): j['wall_s'] for j in json.load(f)['coverage']['jobs']}
+            order.sort(key=lambda i: -prev.get((jobs[i].template, json.dumps(_short(jobs[i].cfg), sort_keys=True, default=str)), 1e9))
+        except Exception:
+            pass
+        for r in pool.imap_unordered(_run_job, [(i, pid, tier, seed, second) for i in order]):
             results.append(r)
             if early and r['violations']:
                 print(f'note: VFW_EARLY_STOP set, stopping after {len(results)}/{len(jobs)} jobs (not a complete run)')
                 break
         twin = twin_async.get()
+    t_pool = time.time() - t0
 
     errors = []
     for r in results:
@@ -233,6 +246,7 @@ def cmd_run(pid, tier, seed):
         ),
         assumptions=meta.get('assumptions', []) + COMMON_ASSUMPTIONS,
         wall_s=round(wall, 2),
+        phases=dict(exploration_pool_s=round(t_pool, 2), replay_and_reporting_s=round(wall - t_pool, 2)),
         violations=len(violation_lines),
     )
     evdir = os.path.join(os.environ.get('VFW_OUT', ROOT), 'evidence')
